@@ -50,11 +50,11 @@ structure St where
   dcnt4 : Int := 0
   dmax : Nat := 4
   -- shlist
-  sh : SHList.Mem := SHList.init (SHList.init SHList.emptyMem 65536) (65536 + 16)
+  sh : SHList.Mem := SHList.init (SHList.init SHList.emptyMem 1024) (1024 + 16)
   shOff : Nat := 0
   shSt : Store := Store.empty          -- per slot: 0 uninit, 1 detached, 2 + h member of head h
 
-def shArena : Nat := 65536
+def shArena : Nat := 1024
 def shSlots : Nat := 64
 def shLen : Nat := shSlots * 16
 def shArenaLen : Nat := 8192
